@@ -41,6 +41,9 @@ def check(chk):
     ac_ = [c for c in rh_.calls() if call_attr(c) == "add_handler"]
     chk.need(len(ac_) == 1, "FLOW-1", "replace_handler registers through add_handler", rh_)
     forwarded(chk, "FLOW-1", rh_, ac_[0], ah_, same=["event", "handler", "priority"], require_all=True)
+    # ... and the order of the list itself: every registration is followed by the priority sort (shared with C01)
+    from sa.rules.c01 import _sort_rule
+    _sort_rule(chk, ah_)
     _table0(chk)
     _type1(chk)
 
@@ -236,6 +239,19 @@ def _dom4(chk):
         w = cfg.path_avoiding(hn.id, [head.id], [t.id for t in tests], ignore_exc=True)
         chk.ob("DOM-4", "every iteration checks for an outstanding wait before the next handler", w is None and bool(tests),
                f.where(hc), path=cfg.fmt_path(w, EV) if w else None, construct=f.ident, text="waiter test bypass")
+    # the completion callback fires on every way out of the runner (also when the handlers were removed before its first step)
+    cbs = [(n, c) for n, c in cfg.calls_named("callback") if isinstance(c.func, ast.Name)]
+    chk.need(cbs, "DOM-4", "the queue runner calls the completion callback", f)
+    via = [n.id for n, _ in cbs] + [b.id for b in cfg.nodes if b.kind == "branch" and src(b.ast) == "callback" and b.value is False]
+    w = cfg.must_pass(cfg.entry.id, via)
+    chk.ob("DOM-4", "every returning path of the queue runner fires the completion callback (if one was given)", w is None, f.where(),
+           detail="the task starts one loop iteration after the event was dispatched: handlers removed in between (a mode stopped in the same "
+                  "drain) must not leave the event without completion - post_queue_async would wait forever",
+           construct=f.ident, text="queue runner returns without the completion callback", path=cfg.fmt_path(w, f) if w else None, nontrivial=True)
+    for n, c in cbs:
+        inloop = any(x is c for st in head.ast.body for x in ast.walk(st))
+        chk.ob("DOM-4", "the completion callback is outside the handler loop (fires once)", not inloop or not cfg.path_avoiding(n.id, [head.id], [], ignore_exc=True),
+               f.where(c), construct=f.ident, text="completion callback inside the loop")
     # the queue object handed to the handler: popped from merged kwargs or fresh per handler
     qdefs = [n for n in cfg.nodes_where(lambda n: n.kind == "stmt" and isinstance(n.ast, ast.Assign) and
                                         any(isinstance(t, ast.Name) and t.id == "queue" for t in n.ast.targets))]
@@ -760,6 +776,9 @@ def battery():
     MC = "mpf/core/mode_controller.py"
     G = "mpf/modes/game/code/game.py"
     return [
+        M("handler list re-sorted only when the raw priority says so", EV, "        if len(self.registered_handlers[event]) > 1:\n            self.registered_handlers[event].sort(key=lambda x: x.priority, reverse=True)", "        if len(self.registered_handlers[event]) > 1 and self.registered_handlers[event][-2].priority < priority:\n            self.registered_handlers[event].sort(key=lambda x: x.priority, reverse=True)", "SORT-1"),
+        M("queue runner returns without completion when the handlers vanished", EV, "        if event not in self.registered_handlers:\n            if callback:\n                callback(**kwargs)\n            return\n\n        # Now let's call the handlers one-by-one, including any kwargs\n        for handler in self.registered_handlers[event][:]:\n            # use slice above so we don't process new handlers that came\n            # in while we were processing previous handlers\n\n            # merge the post's kwargs with the registered handler's kwargs\n            # in case of conflict, handlers kwargs will win\n            merged_kwargs = dict(list(kwargs.items()) + list(handler.kwargs.items()))", "        if event not in self.registered_handlers:\n            return\n\n        # Now let's call the handlers one-by-one, including any kwargs\n        for handler in self.registered_handlers[event][:]:\n            # use slice above so we don't process new handlers that came\n            # in while we were processing previous handlers\n\n            # merge the post's kwargs with the registered handler's kwargs\n            # in case of conflict, handlers kwargs will win\n            merged_kwargs = dict(list(kwargs.items()) + list(handler.kwargs.items()))", "DOM-4"),
+        M("twin: queue runner walks an empty list when the handlers vanished", EV, "        if event not in self.registered_handlers:\n            if callback:\n                callback(**kwargs)\n            return\n\n        # Now let's call the handlers one-by-one, including any kwargs\n        for handler in self.registered_handlers[event][:]:\n            # use slice above so we don't process new handlers that came\n            # in while we were processing previous handlers\n\n            # merge the post's kwargs with the registered handler's kwargs\n            # in case of conflict, handlers kwargs will win\n            merged_kwargs = dict(list(kwargs.items()) + list(handler.kwargs.items()))", "        for handler in self.registered_handlers.get(event, [])[:]:\n            merged_kwargs = dict(list(kwargs.items()) + list(handler.kwargs.items()))", None),
         M("Mode.start forwards queue again", "mpf/core/mode.py", "callback=self._started, **starting_kwargs)", "callback=self._started, **kwargs)", "FLOW-2"),
         M("handler forwards kwargs into queue event", "mpf/devices/ball_hold.py", "    def _hold_ball(", "    def _hold_ball_x(self, **kwargs):\n        self.machine.events.post_queue('x', callback=None, **kwargs)\n\n    def _hold_ball(", "FLOW-2"),
         M("done-callback skips clear when cancelled", E, "        except asyncio.CancelledError:\n            pass\n        queue.clear()", "        except asyncio.CancelledError:\n            return\n        queue.clear()", "PAIR-1"),
